@@ -180,6 +180,19 @@ def unwrap(r):
     return r
 
 
+class SequenceShapeError(Exception):
+    pass
+
+
+def _elt(obj, i, n=2):
+    """value i of a pose object that must hold exactly n values (a multi-valued symbolic pose has to stay a sequence of n matrices:
+    `.A[i]` alone would also index into one mis-shaped (n,N,N) value)"""
+    shp = obj.shape
+    if len(obj) != n or len(obj.data) != n or any(np.shape(d) != shp for d in obj.data):
+        raise SequenceShapeError(f"{type(obj).__name__} result holds {len(obj)} value(s) of shapes {[np.shape(d) for d in obj.data]}, expected {n} values of shape {shp}")
+    return obj.data[i]      # (indexing re-validates the value numerically in some classes: not part of this property)
+
+
 def L(v):
     """array -> python list of its elements (the 'list' call form)"""
     return list(np.asarray(v, dtype=object).flatten()) if np.asarray(v).dtype == object else [float(x) for x in np.asarray(v).flatten()]
@@ -288,7 +301,7 @@ def forms():
     add('SE3.__init__', 'x,2,3', [('x', S, 'lin')], lambda x: SE3(x, 2, 3), trace='tr_SE3_ctor_x23')
     add('SE3.t', 't', [('X', M44, 'se3')], lambda X: SE3(X, check=False).t, trace='tr_SE3_t')
     add('SE3.inv', 'inv', [('X', M44, 'se3')], lambda X: SE3(X, check=False).inv(), trace='tr_SE3_inv')
-    add('SE3.inv', 'inv of [X,Y]', [('X', M44, 'se3'), ('Y', M44, 'se3')], lambda X, Y: SE3([X, Y], check=False).inv().A[1], trace='tr_SE3_inv_seq')
+    add('SE3.inv', 'inv of [X,Y]', [('X', M44, 'se3'), ('Y', M44, 'se3')], lambda X, Y: _elt(SE3([X, Y], check=False).inv(), 1), trace='tr_SE3_inv_seq')
     add('SE3.Ad', 'Ad', [('X', M44, 'se3')], lambda X: SE3(X, check=False).Ad(), trace='tr_SE3_Ad')
     add('SE3.jacob', 'X.jacob()', [('X', M44, 'se3')], lambda X: SE3(X, check=False).jacob(), trace='tr_SE3_jacob')
     for ax in 'xyz':
@@ -296,10 +309,10 @@ def forms():
         add(f'SE3.R{ax}', 'theta', [('t', S, 'ang')], Rf, trace=f'tr_SE3_R{ax}')
         add(f'SE3.R{ax}', "theta,'deg'", [('t', S, 'deg')], (lambda f: lambda t: f(t, 'deg'))(Rf), trace=f'tr_SE3_R{ax}_deg', post='deg')
         add(f'SE3.R{ax}', 'theta,t=list', [('t', S, 'ang'), ('v', V3, 'lin')], (lambda f: lambda t, v: f(t, t=L(v)))(Rf), trace=f'tr_SE3_R{ax}_t')
-        add(f'SE3.R{ax}', '[a,b]', [('a', S, 'ang'), ('b', S, 'ang')], (lambda f: lambda a, b: f([a, b]).A[1])(Rf), trace=f'tr_SE3_R{ax}_seq')
-        add(f'SE3.R{ax}', '[a,0.3]', [('a', S, 'ang')], (lambda f: lambda a: f([a, 0.3]).A[0])(Rf))
+        add(f'SE3.R{ax}', '[a,b]', [('a', S, 'ang'), ('b', S, 'ang')], (lambda f: lambda a, b: _elt(f([a, b]), 1))(Rf), trace=f'tr_SE3_R{ax}_seq')
+        add(f'SE3.R{ax}', '[a,0.3]', [('a', S, 'ang')], (lambda f: lambda a: _elt(f([a, 0.3]), 0))(Rf))
         add(f'SE3.T{ax}', 'x', [('x', S, 'lin')], Tf, trace=f'tr_SE3_T{ax}')
-        add(f'SE3.T{ax}', '[x,y]', [('x', S, 'lin'), ('y', S, 'lin')], (lambda f: lambda x, y: f([x, y]).A[1])(Tf), trace=f'tr_SE3_T{ax}_seq')
+        add(f'SE3.T{ax}', '[x,y]', [('x', S, 'lin'), ('y', S, 'lin')], (lambda f: lambda x, y: _elt(f([x, y]), 1))(Tf), trace=f'tr_SE3_T{ax}_seq')
         add(f'Twist3.R{ax}', '[theta]', [('t', S, 'ang')], (lambda f: lambda t: f([t]))(Wf), trace=f'tr_Twist3_R{ax}')
         add(f'Twist3.R{ax}', 'theta (scalar)', [('t', S, 'ang')], Wf, trace=f'tr_Twist3_R{ax}_scalar')
         add(f'Twist3.R{ax}', '[theta],deg', [('t', S, 'deg')], (lambda f: lambda t: f([t], 'deg'))(Wf), trace=f'tr_Twist3_R{ax}_deg', post='deg')
@@ -370,14 +383,22 @@ def forms():
     # simplification must not change the value (numeric side: the un-simplified value)
     add('SMPose.simplify', 'SE3(X)', [('X', M44, 'se3')], lambda X: SE3(X, check=False).simplify(), trace='tr_simplify_SE3',
         numcall=lambda X: SE3(X, check=False))
-    add('SMPose.simplify', 'SE3([X,Y])[1]', [('X', M44, 'se3'), ('Y', M44, 'se3')], lambda X, Y: SE3([X, Y], check=False).simplify().A[1],
-        trace='tr_simplify_SE3_seq', numcall=lambda X, Y: SE3([X, Y], check=False).A[1])
-    add('SMPose.simplify', 'SE3([X,Y])[0]', [('X', M44, 'se3'), ('Y', M44, 'se3')], lambda X, Y: SE3([X, Y], check=False).simplify().A[0],
-        numcall=lambda X, Y: SE3([X, Y], check=False).A[0])
+    add('SMPose.simplify', 'SE3([X,Y])[1]', [('X', M44, 'se3'), ('Y', M44, 'se3')], lambda X, Y: _elt(SE3([X, Y], check=False).simplify(), 1),
+        trace='tr_simplify_SE3_seq', numcall=lambda X, Y: _elt(SE3([X, Y], check=False), 1))
+    add('SMPose.simplify', 'SE3([X,Y])[0]', [('X', M44, 'se3'), ('Y', M44, 'se3')], lambda X, Y: _elt(SE3([X, Y], check=False).simplify(), 0),
+        numcall=lambda X, Y: _elt(SE3([X, Y], check=False), 0))
     add('SMPose.simplify', 'SE2(X)', [('X', M33, 'se2')], lambda X: SE2(X, check=False).simplify(), trace='tr_simplify_SE2',
         numcall=lambda X: SE2(X, check=False))
-    add('SMPose.simplify', 'SE2([X,Y])[1]', [('X', M33, 'se2'), ('Y', M33, 'se2')], lambda X, Y: SE2([X, Y], check=False).simplify().A[1],
-        trace='tr_simplify_SE2_seq', numcall=lambda X, Y: SE2([X, Y], check=False).A[1])
+    add('SMPose.simplify', 'SE2([X,Y])[1]', [('X', M33, 'se2'), ('Y', M33, 'se2')], lambda X, Y: _elt(SE2([X, Y], check=False).simplify(), 1),
+        trace='tr_simplify_SE2_seq', numcall=lambda X, Y: _elt(SE2([X, Y], check=False), 1))
+    # a simplified multi-valued symbolic pose is still a sequence: it composes and inverts element by element
+    add('SMPose.simplify', '(Rx([a,b])*Rx(a)).simplify()[1]', [('a', S, 'ang'), ('b', S, 'ang')],
+        lambda a, b: _elt((SE3.Rx([a, b]) * SE3.Rx(a)).simplify(), 1), numcall=lambda a, b: _elt(SE3.Rx([a, b]) * SE3.Rx(a), 1))
+    add('SMPose.simplify', '(Ry([a,b])*Ry([b,a])).simplify().inv()[0]', [('a', S, 'ang'), ('b', S, 'ang')],
+        lambda a, b: _elt((SO3.Ry([a, b]) * SO3.Ry([b, a])).simplify().inv(), 0), numcall=lambda a, b: _elt((SO3.Ry([a, b]) * SO3.Ry([b, a])).inv(), 0))
+    add('SMPose.simplify', '(SE2([X,Y]).simplify()*SE2(X))[1]', [('X', M33, 'se2'), ('Y', M33, 'se2')],
+        lambda X, Y: _elt(SE2([X, Y], check=False).simplify() * SE2(X, check=False), 1),
+        numcall=lambda X, Y: _elt(SE2([X, Y], check=False) * SE2(X, check=False), 1))
     add('SMPose.simplify', 'SO3(R)', [('R', M33, 'rot')], lambda R: SO3(R, check=False).simplify(), trace='tr_simplify_SO3',
         numcall=lambda R: SO3(R, check=False))
     add('SMPose.simplify', 'SO2(A)', [('A', M22, 'rot2')], lambda A: SO2(A, check=False).simplify(), trace='tr_simplify_SO2',
